@@ -553,8 +553,10 @@ def main(tier):
         chk.cov["evaluations"] = len(hist)
         chk.cov["distinct_nontrivial"] = nfired
         chk.cov["rule"] = ("histories = every operation of the catalogue alone without fault and with a fault at call-out position "
-                           "1..8 x {Exception, BaseException}, plus random histories of 2-3 faulted operations; after each history 11 "
-                           "probe checks + quiescence; non-trivial = injected faults that actually fired")
+                           "1..8 x {Exception, BaseException}, plus random histories of 2-3 faulted operations; after each history a "
+                           "battery of about 45 probe checks (fresh-context verdicts, checks after interposed rejected checks / decorated "
+                           "calls / decoration in the same context, a hooked module's nested def, a wrapped shared annotation) + quiescence "
+                           "observed before and after the battery; non-trivial = injected faults that actually fired")
         chk.sample({"history": hist[len(names) + 3], "probes": [p["tag"] for p in arr_rows[:9]]})
         chk.part("histories", total=len(hist), operations=names, faults_fired=nfired, probe_rows=t1 + t2)
         chk.assumptions += ["call-outs: .shape / .dtype of array-likes, __format__ of {args}, custom tree_flatten, leaf "
